@@ -11,4 +11,5 @@ INVARIANT SubLaw
 INVARIANT SatisfiesLaw
 INVARIANT OrLaw
 INVARIANT AddCommutes
+INVARIANT ReservePairs
 INVARIANT Emit
